@@ -13,6 +13,10 @@ ABC = ['a', 'b', 'c']
 def orders_for(ctx, names, quick_n=1):
     perms = list(itertools.permutations(names))
     if ctx.tier == 'thorough':
+        if ctx.nshards > 1:
+            # the shards of a thorough run split the orders between them
+            m = min(ctx.nshards, len(perms))
+            return [p for k, p in enumerate(perms) if k % m == ctx.shard % m]
         return perms
     k = ctx.seed % len(perms)
     return [perms[(k + i) % len(perms)] for i in range(quick_n)]
@@ -61,10 +65,86 @@ def warm_up(ctx, s, names, steps=25):
 # C01
 # ---------------------------------------------------------------------------
 
+def _c01_exhaustive_shard(ctx):
+    """Thorough tier, one shard: its slice of the FULL finite spaces of the property text —
+    every ordered pair of the 256 functions of three variables for every alias, and every ITE
+    triple, under every one of the 6 variable orders.  Work items are dealt round-robin to the
+    shards; together the shards enumerate the spaces completely (`exhaustive`)."""
+    sp = Space(ABC)
+    perms = list(itertools.permutations(ABC))
+    items = []
+    for order in perms:
+        for cn in CONNECTIVES:
+            for al in ALIASES[cn]:
+                items.append(('pairs', order, cn, al))
+        for gs in range(8):
+            items.append(('triples', order, gs))
+    mine = [it for k, it in enumerate(items) if k % ctx.nshards == ctx.shard]
+    done = getattr(ctx, '_c01_done', set())
+    ctx._c01_done = done
+    for it in mine:
+        if it in done:
+            continue
+        if ctx.time_left() < 0.3 * ctx.budget_s:
+            ctx.notes.append(f'exhaustive C01 items not reached in this shard: {len(mine) - len(done)}')
+            return
+        done.add(it)
+        order = it[1]
+        s = fresh(ctx, order)
+        refs = all_functions(s, sp)
+        tt = TT(s.mgr(0), ABC)
+        if it[0] == 'pairs':
+            _, _, cn, al = it
+            f = CONNECTIVES[cn]
+            bad = False
+            for t1, r1 in refs.items():
+                for t2, r2 in refs.items():
+                    ans = s.op(0, 'apply', al, r1, r2)
+                    r = s.val(ans)
+                    if r is None or tt.of(r) != f(sp, t1, t2):
+                        ctx.violation(f'apply({al!r}) wrong on order {order}', dict(
+                            op='apply', alias=al, order=order, u_tt=t1, v_tt=t2, got=ans,
+                            tags=dict(call='apply')))
+                        bad = True
+                        break
+                if bad:
+                    break
+            ctx.evaluations += 65536
+            ctx.count('exhaustive-pairs', 65536)
+        else:
+            _, _, gs = it
+            keys = list(refs)
+            bad = False
+            for g in keys[gs::8]:
+                for u in keys:
+                    for v in keys:
+                        ans = s.op(0, 'ite', refs[g], refs[u], refs[v])
+                        r = s.val(ans)
+                        if r is None or tt.of(r) != sp.ite(g, u, v):
+                            ctx.violation('ite wrong', dict(
+                                op='ite', order=order, g_tt=g, u_tt=u, v_tt=v, got=ans,
+                                tags=dict(call='ite')))
+                            bad = True
+                            break
+                    if bad:
+                        break
+                if bad:
+                    break
+            ctx.evaluations += 32 * 65536
+            ctx.count('exhaustive-ite-triples', 32 * 65536)
+        ctx.case(it)
+        ctx.add_session(s, SECTIONS_L2, f'C01 exhaustive {it}')
+        s.close()
+        ctx.flush_model()
+    ctx.exhaustive = True
+
+
 def check_C01(ctx):
     rng = ctx.rng
     sp = Space(ABC)
     conns = list(CONNECTIVES)
+    if ctx.tier == 'thorough' and ctx.nshards > 1:
+        _c01_exhaustive_shard(ctx)
     if ctx.tier == 'quick':
         k = ctx.seed % len(conns)
         chosen = [conns[k], conns[(k + 1) % len(conns)]]
@@ -386,6 +466,12 @@ def check_C02(ctx):
             if r_c1 != refs[sp.compose(src_t, {k1: g1})]:
                 ctx.violation('route compose (one variable) gives another reference', dict(
                     route='compose1', tt=src_t, var=k1, g=g1, order=order, tags=dict(call='route:compose1')))
+            # route: parsing the DNF formula
+            try:
+                import checks_parse as _cp
+                got['parse'] = s.val(s.op(0, 'add_expr', _cp.esc(dnf_lines(sp, t))))
+            except ImportError:
+                pass
             # route: copy from the other manager
             bld1 = getattr(s, '_bld1', None)
             if bld1 is None:
